@@ -168,9 +168,14 @@ class _Canon(ast.NodeTransformer):
                 and len(node.args[0].args) == 2 and not node.args[0].keywords and node.func.id == 'list':
             inner = node.args[0]
             fexpr, xs = inner.args
-            if (isinstance(fexpr, ast.Constant) and fexpr.value is None and inner.func.id == 'filter') or isinstance(fexpr, (ast.Name, ast.Attribute)):
+            one_arg_lambda = isinstance(fexpr, ast.Lambda) and len(fexpr.args.args) == 1 and not fexpr.args.vararg and not fexpr.args.kwarg \
+                and not fexpr.args.kwonlyargs and not fexpr.args.defaults
+            if (isinstance(fexpr, ast.Constant) and fexpr.value is None and inner.func.id == 'filter') or isinstance(fexpr, (ast.Name, ast.Attribute)) or one_arg_lambda:
                 v = ast.Name(id='_x', ctx=ast.Load())
-                app = v if isinstance(fexpr, ast.Constant) else ast.Call(func=fexpr, args=[v], keywords=[])
+                if one_arg_lambda:
+                    app = _RenameVar({fexpr.args.args[0].arg: '_x'}).visit(copy.deepcopy(fexpr.body))
+                else:
+                    app = v if isinstance(fexpr, ast.Constant) else ast.Call(func=fexpr, args=[v], keywords=[])
                 gen = ast.comprehension(target=ast.Name(id='_x', ctx=ast.Store()), iter=xs, ifs=[app] if inner.func.id == 'filter' else [], is_async=0)
                 comp = ast.ListComp(elt=(v if inner.func.id == 'filter' else app), generators=[gen])
                 return self.visit(ast.fix_missing_locations(comp))
@@ -327,7 +332,8 @@ def _loop_text(q, n, r):
                 for t in ast.walk(n.target):
                     if isinstance(t, ast.Name):
                         env[t.id] = ast.Name(id='_elem_' + t.id, ctx=ast.Load())
-            paths = sympath.feasible(sympath.block_summaries(project, func, stmts, env=env, ncall0=1000 * _DEPTH[0], named_constants=True))
+            paths = sympath.feasible(sympath.block_summaries(project, func, stmts, env=env, ncall0=1000 * _DEPTH[0], named_constants=True,
+                                                             assume=_enumerate_bound(n, env)))
             cs = _cases_of_paths(paths)
             parts = []
             for c in cs:
@@ -550,6 +556,25 @@ def _env_suffix(case, names, order=None):
     return ' ; '.join(parts)
 
 
+def _enumerate_bound(loop, env):
+    """`for i, x in enumerate(xs)` / `for i in range(len(xs))`: inside the body  i < len(xs)  holds by construction"""
+    if not isinstance(loop, ast.For):
+        return ()
+    it = loop.iter
+    idx = seq = None
+    if isinstance(it, ast.Call) and isinstance(it.func, ast.Name) and it.func.id == 'enumerate' and len(it.args) == 1 and not it.keywords \
+            and isinstance(loop.target, ast.Tuple) and len(loop.target.elts) == 2 and isinstance(loop.target.elts[0], ast.Name):
+        idx, seq = loop.target.elts[0].id, it.args[0]
+    elif isinstance(it, ast.Call) and isinstance(it.func, ast.Name) and it.func.id == 'range' and len(it.args) == 1 and isinstance(loop.target, ast.Name) \
+            and isinstance(it.args[0], ast.Call) and isinstance(it.args[0].func, ast.Name) and it.args[0].func.id == 'len' and len(it.args[0].args) == 1:
+        idx, seq = loop.target.id, it.args[0].args[0]
+    if idx is None or idx not in env:
+        return ()
+    from .shape import _Sub
+    seq2 = _Sub({k: v for k, v in env.items()}, 1).visit(copy.deepcopy(seq))
+    return (('%s < len(%s)' % (src_of(env[idx]), src_of(seq2)), True),)
+
+
 def _replace_breaks(stmts, tail):
     """the statement list with every `break` of *this* loop (not of nested loops) replaced by a copy of `tail`"""
     out = []
@@ -630,7 +655,8 @@ def segments(project, func, inline=True, select=None):
             for t in ast.walk(lp.target):
                 if isinstance(t, ast.Name):
                     ienv[t.id] = ast.Name(id='_elem_' + t.id, ctx=ast.Load())
-        ipaths = sympath.feasible(sympath.block_summaries(project, func, stmts, env=ienv, ncall0=100 * k + 50, named_constants=True))
+        ipaths = sympath.feasible(sympath.block_summaries(project, func, stmts, env=ienv, ncall0=100 * k + 50, named_constants=True,
+                                                          assume=_enumerate_bound(lp, ienv)))
         out.append(('iter%d' % k, _cases_of_paths(ipaths), sorted(carried)))
         if merged_tail:
             break
@@ -840,7 +866,8 @@ def atom_domain(atom, pol):
                     c = -c
                     rel = {'<': '>', '>': '<', '==': '=='}[rel]
                 k0 = -c                                   # V rel k0
-                ints = all(_int_leaf(e) for _, e in var)
+                # integers: every leaf is known to be one, or the expression is compared with a length (an index / a size)
+                ints = all(_int_leaf(e) for _, e in var) or any(e.startswith('len(') and e.endswith(')') for _, e in var)
                 if ints:
                     pt, below, above = k0, k0 - 1, k0 + 1
                 else:
